@@ -583,6 +583,7 @@ func runEpisode(t *rapid.T, w *world, label string, hk *hook) epResult {
 	forgedServed := false
 
 	callNo := 0
+	aborted := false // a listed known finding was met: the rest of the episode would only repeat it
 	lifeDesc := ""
 	runCalls := func(prim *node, calls []apiCall) {
 		for _, c := range calls {
@@ -691,7 +692,8 @@ func runEpisode(t *rapid.T, w *world, label string, hk *hook) epResult {
 						lib.ObservedKnown(findingBackwardsUnvalidated)
 						lib.ExcludedByKnown(findingBackwardsUnvalidated)
 						cls.add("known:backwards-unvalidated")
-						continue
+						aborted = true
+						return
 					}
 					t.Fatalf("SOUNDNESS: header %d/%X (genuine=%v) is in the trusted store but no chain of valid verification steps leads to it from the trusted headers %v over the %d light blocks the providers returned%s\n%s",
 						b.Height, b.Hash(), isGenuine(b), heightsOf(tl), len(U), why, desc)
@@ -701,6 +703,8 @@ func runEpisode(t *rapid.T, w *world, label string, hk *hook) epResult {
 						lib.ObservedKnown(findingBackwardsUnvalidated)
 						lib.ExcludedByKnown(findingBackwardsUnvalidated)
 						cls.add("known:backwards-unvalidated")
+						aborted = true
+						return
 					} else {
 						t.Fatalf("SOUNDNESS: header %d/%X was stored as a light block that is not well formed (%v): whatever is verified from it later is judged against a validator set / commit its header does not name (backwards=%v)\n%s",
 							b.Height, b.Hash(), err, b.Height < firstBefore, desc)
@@ -983,7 +987,7 @@ func runEpisode(t *rapid.T, w *world, label string, hk *hook) epResult {
 	// highest of them.
 	nLives := rapid.SampledFrom([]int{1, 1, 1, 2, 2, 2, 3}).Draw(t, "lives")
 	now = lastNow
-	for life := 2; life <= nLives; life++ {
+	for life := 2; life <= nLives && !aborted; life++ {
 		reopen := rapid.IntRange(0, 4).Draw(t, "reopen") != 0
 		if reopen {
 			st = dbs.New(db, w.chainID)
